@@ -125,8 +125,14 @@ class Box:
                         )
 
                 # Adjust for upscaling
+                k_end = new_start_coord[-3] - pad_top + total_stride + k_dilated_height
                 new_start_coord[-3] = max(new_start_coord[-3] // upscaling_factor, 0)
                 new_end_coord[-3] = new_end_coord[-3] * stride + skirt[2] + (skirt[2] % upscaling_factor)
+                if upscaling_factor == 1:
+                    # The last row that is read is given by the end position of the kernel after the last stride. The
+                    # bottom skirt overshoots that when the IFM height is not a multiple of the stride, and rows that
+                    # are not read must not be waited for (they may already have been replaced in a rolling buffer)
+                    new_end_coord[-3] = min(new_end_coord[-3], max(k_end, new_start_coord[-3] + 1))
                 new_end_coord[-3] = max(min(new_end_coord[-3] // upscaling_factor, ifm_shape.height), 1)
 
         # Wrap the IFMs of broadcasted binary elementwise ops
